@@ -66,25 +66,8 @@ SetMin(S) == FoldSet(LAMBDA a, b : IF a < b THEN a ELSE b, CHOOSE a \in S : TRUE
 (* num >= a * 2^20 for 0 <= num < 2^31 and any integer a, without overflow *)
 GE(num, a) == a <= 0 \/ (a < 2048 /\ num >= a * 1048576)
 
-(***************************************************************************)
-(* Allowed(v, m): the payloads the float32 computation may produce for an  *)
-(* entry v of a column whose max-abs is m.  With r = N|v|/m = lo + fr:     *)
-(*   lo   allowed iff fr     <= 1/2 + r 2^-21 iff 2 fr m - m <= N|v| 2^-20 *)
-(*   lo+1 allowed iff 1 - fr <= 1/2 + r 2^-21 iff m - 2 fr m <= N|v| 2^-20 *)
-(* no other integer is within 1/2 + r 2^-21 < 1 of r.  m = 0 is the        *)
-(* "bs_nonzero" branch: ratio = 0/1.                                       *)
-(***************************************************************************)
-Allowed(v, m) ==
-  IF m = 0 THEN {0} ELSE
-  LET num == N * Abs(v)
-      lo  == num \div m
-      fr2 == 2 * (num - lo * m)
-      dn  == GE(num, fr2 - m)
-      up  == GE(num, m - fr2)
-  IN {Sgn(v) * lo : z \in IF dn THEN {1} ELSE {}} \cup
-     {Sgn(v) * (lo + 1) : z \in IF up THEN {1} ELSE {}}
-
-(* exact round-half-even of N v / m - the documented rounding rule *)
+(* exact round-half-even of N v / m - the documented rounding rule ("we use *)
+(* rounding to remove bias"; jnp.round rounds halves to even)               *)
 RoundHalfEven(v, m) ==
   IF m = 0 THEN 0 ELSE
   LET num == N * Abs(v)
@@ -92,6 +75,33 @@ RoundHalfEven(v, m) ==
       fr2 == 2 * (num - lo * m)
   IN Sgn(v) * (IF fr2 < m THEN lo ELSE IF fr2 > m THEN lo + 1
                ELSE IF lo % 2 = 0 THEN lo ELSE lo + 1)
+
+(***************************************************************************)
+(* Allowed(v, m): the payloads the float32 computation may produce for an  *)
+(* entry v of a column whose max-abs is m.  With r = N|v|/m = lo + fr:     *)
+(*   lo   allowed iff fr     <= 1/2 + r 2^-21 iff 2 fr m - m <= N|v| 2^-20 *)
+(*   lo+1 allowed iff 1 - fr <= 1/2 + r 2^-21 iff m - 2 fr m <= N|v| 2^-20 *)
+(* no other integer is within 1/2 + r 2^-21 < 1 of r.  m = 0 is the        *)
+(* "bs_nonzero" branch: ratio = 0/1.                                       *)
+(* EXACT BUCKET.  If N divides m the bucket m/N * 2^e is a float, the IEEE *)
+(* division max/N returns it exactly and v/(m/N) is a correctly rounded    *)
+(* quotient of two small integers: an exact tie (a half-integer with few   *)
+(* bits) stays a tie, a non-tie is at least 1/(2m/N) away from one, so the *)
+(* payload is exactly RoundHalfEven - no window.  (Measured: 0 deviations  *)
+(* for m in {N, 2N, .., 516N}, eager and jit.)  This is what pins the      *)
+(* tie-breaking rule itself: half-up / half-away variants differ on the    *)
+(* 254 ties of the int8 column with maximum 254.                           *)
+(***************************************************************************)
+Allowed(v, m) ==
+  IF m = 0 THEN {0} ELSE
+  IF m % N = 0 THEN {RoundHalfEven(v, m)} ELSE
+  LET num == N * Abs(v)
+      lo  == num \div m
+      fr2 == 2 * (num - lo * m)
+      dn  == GE(num, fr2 - m)
+      up  == GE(num, m - fr2)
+  IN {Sgn(v) * lo : z \in IF dn THEN {1} ELSE {}} \cup
+     {Sgn(v) * (lo + 1) : z \in IF up THEN {1} ELSE {}}
 
 (* |p m/N - v| <= (m/N)(1/2 + |N v/m| 2^-21), exactly:                     *)
 (*   2|p m - N v| - m <= N|v| 2^-20                                        *)
